@@ -54,7 +54,7 @@ def do_case(ctx, inp):
     for prio, w in zip(prios, objs):
         w = [int(v) for v in w]
         user = [int(prio.get(i, 0)) for i in ids]
-        ctx.op({"op": "objective", "dpv": dpv, "user": user}, {"w": w})
+        ctx.op({"op": "objective", "dpv": dpv, "user": user}, {"w": w, "spec": w})
         # certificate on the real objective: levels are the dense ranks of the keys (row, magnitude)
         keys = [(1, abs(u)) if u != 0 else (0, abs(d)) if d != 0 else None for u, d in zip(user, dpv)]
         ds = sorted({k for k in keys if k is not None})
